@@ -543,10 +543,12 @@ def check_phase(emit, spec, rows, phase, tol, ta):
             emit("energy.row", abs((P - L) - out) <= etol, lambda: det(power_minus_loss=P - L, handed_on=out, tol=etol))
             emit("energy.loss_range", -etol <= L <= P + etol, lambda: det(tol=etol))
             if P > 0:
+                # (Loss may exceed Power by the solver tolerance, e.g. sub-1e-8 A currents that numpy's fixed atol cannot
+                # resolve; the reported value is then the magnitude, and the range check carries the same tolerance)
                 e = 100.0 * (P - L) / P
                 et = 100.0 * etol / P + 1e-9
-                emit("energy.eff", abs(E - e) <= 1e-9 * max(1.0, abs(e)) and -et <= E <= 100 + et,
-                     lambda: det(expected_eff=e))
+                emit("energy.eff", abs(E - abs(e)) <= 1e-9 * max(1.0, abs(e)) and -et <= E <= 100 + et and e >= -et,
+                     lambda: det(expected_eff=e, tol=et))
             sysLoss += L
             diss = L
         sys_tol += etol
